@@ -138,6 +138,119 @@ fn gen(name: &'static str, weight: u32, f: fn(&mut Rng) -> Scenario) -> Gen {
     Gen { name, weight, f, expand: None }
 }
 
+fn gen_x(name: &'static str, weight: u32, f: fn(&mut Rng) -> Scenario, x: fn(&Scenario, &RunOutput, &mut Rng, bool) -> Vec<Scenario>) -> Gen {
+    Gen { name, weight, f, expand: Some(x) }
+}
+
+/// Fault enumeration: the fault-free run told us how many times each transport operation was
+/// invoked; re-run once per (operation, k) with that invocation failing (quick: at most 10
+/// positions per operation, spread over the run; thorough: every position up to 60).
+fn fault_positions(out: &RunOutput, rng: &mut Rng, thorough: bool, with_close: bool) -> Vec<crate::transport::FaultAt> {
+    use crate::transport::{FaultAt, Op2};
+    let mut v = Vec::new();
+    let kinds: &[(&str, Op2)] = &[("op.ready", Op2::Ready), ("op.send", Op2::Send), ("op.flush", Op2::Flush), ("op.next", Op2::Next), ("op.next", Op2::NextEof), ("op.close", Op2::Close)];
+    for (key, op) in kinds {
+        if *op == Op2::Close && !with_close {
+            continue;
+        }
+        let n = out.counters.get(key).copied().unwrap_or(0).min(if thorough { 60 } else { 400 }) as u32;
+        if n == 0 {
+            continue;
+        }
+        let cap = if thorough { 60 } else { 10 };
+        if n <= cap {
+            for k in 1..=n {
+                v.push(FaultAt { op: *op, k });
+            }
+        } else {
+            let mut ks: Vec<u32> = (0..cap).map(|_| 1 + rng.below(n as u64) as u32).collect();
+            ks.push(1);
+            ks.push(n);
+            ks.sort();
+            ks.dedup();
+            for k in ks {
+                v.push(FaultAt { op: *op, k });
+            }
+        }
+    }
+    v
+}
+
+fn expand_faults(s: &Scenario, out: &RunOutput, rng: &mut Rng, thorough: bool) -> Vec<Scenario> {
+    let mut res = Vec::new();
+    match s {
+        Scenario::Client(c) => {
+            for f in fault_positions(out, rng, thorough, true) {
+                let mut c2 = c.clone();
+                c2.link.faults = vec![f];
+                c2.link.sticky = rng.chance(600);
+                res.push(Scenario::Client(c2));
+            }
+        }
+        Scenario::Server(c) => {
+            for f in fault_positions(out, rng, thorough, false) {
+                let mut c2 = c.clone();
+                c2.link.faults = vec![f];
+                c2.link.sticky = rng.chance(600);
+                res.push(Scenario::Server(c2));
+            }
+        }
+        _ => {}
+    }
+    res
+}
+
+/// Shutdown enumeration: end-of-stream instead of every k-th read (peer close / half-close at
+/// every point of the run), on the client and on the server side.
+fn expand_eof(s: &Scenario, out: &RunOutput, rng: &mut Rng, thorough: bool) -> Vec<Scenario> {
+    use crate::transport::{FaultAt, Op2};
+    let n = out.counters.get("op.next").copied().unwrap_or(0).min(if thorough { 80 } else { 16 }) as u32;
+    let _ = rng;
+    let mut res = Vec::new();
+    for k in 1..=n {
+        match s {
+            Scenario::Client(c) => {
+                let mut c2 = c.clone();
+                c2.link.faults = vec![FaultAt { op: Op2::NextEof, k }];
+                res.push(Scenario::Client(c2));
+            }
+            Scenario::Server(c) => {
+                let mut c2 = c.clone();
+                c2.link.faults = vec![FaultAt { op: Op2::NextEof, k }];
+                res.push(Scenario::Server(c2));
+            }
+            _ => {}
+        }
+    }
+    res
+}
+
+/// Abandonment enumeration: every call of the fault-free scenario is abandoned at every
+/// suspension point in turn.
+fn expand_abandon(s: &Scenario, _out: &RunOutput, _rng: &mut Rng, thorough: bool) -> Vec<Scenario> {
+    use client::Ab;
+    let mut res = Vec::new();
+    if let Scenario::Client(c) = s {
+        let mut points = vec![Ab::BeforePoll, Ab::AfterPolls(1), Ab::AfterPolls(2), Ab::AtStage(2), Ab::AtStage(3), Ab::AtStage(4)];
+        if thorough {
+            points.push(Ab::AfterPolls(3));
+            points.push(Ab::AtMs(0));
+            points.push(Ab::AtMs(1));
+        }
+        for (i, call) in c.calls.iter().enumerate() {
+            if call.abandon.is_some() {
+                continue;
+            }
+            for p in &points {
+                let mut c2 = c.clone();
+                c2.calls[i].abandon = Some(p.clone());
+                res.push(Scenario::Client(c2));
+            }
+        }
+    }
+    res
+}
+
 fn spec(
     prop: &'static str,
     level: &'static str,
@@ -180,8 +293,8 @@ pub fn checks() -> Vec<CheckSpec> {
             "strict wake-only scheduling: a task is polled only after its waker fired; every call has a finite deadline below the horizon; hang = call still pending at quiescence; non-trivial = a fault/probe fired; distinct = interleaving signature",
             CLIENT_REAL, CLIENT_STUB,
             &["stalls are finite", "tokio timers wake their registrant"]),
-        spec("C03", "exploration",
-            vec![gen("client.abandon", 3, g_client_abandon), gen("client.general", 1, g_client_general), gen("client.shutdown", 1, g_client_shutdown)],
+        spec("C03", "fault_enumeration",
+            vec![gen("client.abandon", 6, g_client_abandon), gen("client.general", 2, g_client_general), gen("client.shutdown", 2, g_client_shutdown), gen_x("client.general+abandon-enum", 1, g_client_general, expand_abandon)],
             q, t,
             "abandonment before first poll / after k polls / at a time / when the request is on the wire / when a reply is queued / when the reply was read, crossed with capacity 1-3, buffer 1-3, stalled sink; preemption inside the guard's Drop (hook H2); per-id sink sequence and the cancel obligation at idle points",
             CLIENT_REAL, CLIENT_STUB, &[]),
@@ -215,14 +328,14 @@ pub fn checks() -> Vec<CheckSpec> {
             "scripted peer sends fresh ids, duplicates while in flight, ids reused after their response, cancels and close; handlers complete in every order; response buffer 1,2,3,100",
             SERVER_REAL, SERVER_STUB, &["id reuse after cancel/expiry with a still-buffered response is outside the property's quantifier and excluded from response attribution"]),
         spec("C09", "fault_enumeration",
-            vec![gen("client.faults", 1, g_client_faults), gen("server.faults", 1, g_server_faults)],
-            q, t,
+            vec![gen("client.faults", 20, g_client_faults), gen("server.faults", 20, g_server_faults), gen_x("client.general+fault-enum", 1, g_client_general, expand_faults), gen_x("server.general+fault-enum", 1, g_server_general, expand_faults)],
+            q / 2, t / 2,
             "one injected transport failure per run at the k-th poll_ready / start_send / poll_flush / poll_close / poll_next (or end-of-stream instead of the k-th read), k drawn over the whole run, on top of the general client / server scenario space (calls blocked on the buffer, queued, in flight, replied-but-unread)",
             BOTH_REAL, BOTH_STUB,
             &["k is sampled per run (1..40) rather than enumerated exhaustively for one scenario"]),
-        spec("C10", "exploration",
-            vec![gen("client.shutdown", 2, g_client_shutdown), gen("client.abandon", 1, g_client_abandon), gen("server.shutdown", 2, g_server_shutdown), gen("server.general", 1, g_server_general)],
-            q, t,
+        spec("C10", "fault_enumeration",
+            vec![gen("client.shutdown", 8, g_client_shutdown), gen("client.abandon", 4, g_client_abandon), gen("server.shutdown", 8, g_server_shutdown), gen("server.general", 4, g_server_general), gen_x("client.general+eof-enum", 1, g_client_general, expand_eof), gen_x("server.general+eof-enum", 1, g_server_general, expand_eof)],
+            q / 2, t / 2,
             "client: last handle dropped / peer EOF at a random point of every run plus at the end of every run; server: inbound EOF after the script with mixed in-flight work",
             BOTH_REAL, BOTH_STUB, &[]),
         spec("C11", "exploration",
